@@ -149,3 +149,34 @@ PROP["assumptions"] = [a.replace(
     "per leaf non-decreasing timestamps (proved: increasing, or the stored timestamp and value re-sent)",
     "per leaf non-decreasing timestamps with faithful raw renderings (C01.RawFaithful: two updates of one stream with equal "
     "canonical renderings have equal values - what proto.Equal guarantees)") for a in PROP["assumptions"]]
+# the CLI-output clause (Props/C01Cli.lean, Lemmas/PipelineCli.lean, Model/CliGroup.lean): cli.displayWalk / pathmap.add over
+# the ONCE client's leaves
+PROP["modules"] += ["Gnmi.Lemmas.PipelineCli", "Gnmi.Props.C01Cli"]
+PROP["theorems"] += ["Gnmi.C01." + t for t in [
+    "display_walk_faithful", "display_walk_faithful_off", "displayWalk_eq", "client_group_display",
+    "showsExpected_of_holds", "cli_group_display_faithful", "cli_faithful_once_clause_holds", "cli_sorted_shows_leaves",
+    "represents_exists", "cli_display_walk_faithful",
+    "toReq_clientReq", "queryClient_once", "cli_three_routes_same_view",
+    "proto_display_as_received", "single_display_as_received", "run_sim",
+    # non-vacuity
+    "cSame_displayed", "parseQueries_c", "plain_c"]] + ["Gnmi.RX." + t for t in [
+    "pmAddNE_leaves", "blocked_leaf", "pmAddNE_apart", "pmAddAll_leaves", "displayWalk_leaves"]] + [
+    "Gnmi.Pipeline." + t for t in [
+    "run_treeInv", "once_treeInv", "cliGroupOf_leaves", "trieOf_spec", "sortedWalk_perm", "exists_trie", "mem_leafValues"]]
+PROP["manifest"]["level_text"] += (
+    " CLI-output clause (Props/C01Cli.lean): cli_group_display_faithful / cli_faithful_once_clause_holds - under exactly the "
+    "hypotheses of the ONCE clause, cli.displayWalk's pathmap.add sequence over the ONCE client's leaves (any walk order; "
+    "WalkSorted's in particular) returns - no panic of the unchecked mm.(pathmap), no collision - a pathmap whose leaves "
+    "(RX.pmLeaves: what pathmap.str prints and go/ve2e parses back) are a permutation of the client's leaves with the same "
+    "values, no path twice, all under T, and outside meta/ exactly Relay.expected; the same through RX.displayWalk for every "
+    "timestamp setting on any ctree holding the client's leaves (cli_display_walk_faithful; display_walk_faithful for every "
+    "well-formed client tree); cli_three_routes_same_view composes cli_invocations_equivalent with it: flags / -proto / "
+    "-proto_file display one and the same pathmap, the expected one; proto / single display modes: one display call per "
+    "response, one line per delivered update / delete (proto_display_as_received, single_display_as_received). The driver op "
+    "`e2e cli` prints the leaves of that pathmap; the process-level run compares the built gnmi_cli's output with it.")
+PROP["trusted_base"] = [a.replace(
+    "cli group display (displayWalk / pathmap nesting, %q / %v formatting): parsed back by go/ve2e, not modelled",
+    "cli text rendering (pathmap.str: %q / %v formatting, indentation, key sorting): parsed back by go/ve2e, not modelled; "
+    "displayWalk / pathmap.add nesting is modelled (RX.displayWalk, Pipeline.cliGroupOf) and proved faithful "
+    "(C01.cli_group_display_faithful); the decoding of the wire bytes into the Pipeline model's index-form responses is "
+    "not composed with C12's protobuf-shaped receive model") for a in PROP["trusted_base"]]
